@@ -1541,6 +1541,45 @@ pub fn gen_bh(rng: &mut Rng, cap: usize, allow_over: bool) -> Vec<u8> {
     v
 }
 
+/// A *normalized* block hash of exactly `len` symbols with runs (1..=3)
+/// touching both ends -- of the same symbol half of the time (position 0 and
+/// position len-1 then belong to "the same run" for any code that wraps).
+pub fn gen_bh_edges(rng: &mut Rng, len: usize) -> Vec<u8> {
+    if len < 8 {
+        return gen_bh(rng, len, false).into_iter().take(len).collect();
+    }
+    let a = rng.below(64) as u8;
+    let b = if rng.chance(1, 2) { a } else { rng.below(64) as u8 };
+    let k1 = rng.range(1, 3) as usize;
+    let k2 = rng.range(1, 3) as usize;
+    let mut v: Vec<u8> = vec![a; k1];
+    // a normalized middle that does not extend the edge runs
+    let mut prev = a;
+    while v.len() < len - k2 {
+        let alpha = if rng.chance(1, 3) { 3 } else { 64 };
+        let mut sym = rng.below(alpha) as u8;
+        let last_slot = v.len() + 1 >= len - k2;
+        while sym == prev || (last_slot && sym == b) {
+            sym = (sym + 1) % 64;
+        }
+        let run = (rng.range(1, 3) as usize).min(len - k2 - v.len());
+        // keep the symbol before the trailing run different from it
+        for _ in 0..run {
+            v.push(sym);
+        }
+        prev = sym;
+        if v.len() == len - k2 && sym == b {
+            let n = v.len();
+            v[n - 1] = (b + 1) % 64;
+        }
+    }
+    v.truncate(len - k2);
+    for _ in 0..k2 {
+        v.push(b);
+    }
+    v
+}
+
 pub fn collapse(b: &[u8]) -> Vec<u8> {
     let mut v: Vec<u8> = Vec::new();
     let mut run = 0;
@@ -1625,6 +1664,7 @@ pub fn gen_text(rng: &mut Rng, t: usize, mutate: bool) -> Vec<u8> {
     let style = rng.below(12);
     let (b1, b2) = match style {
         0 | 1 => (gen_bh_fits_after_collapse(rng, 64), gen_bh_fits_after_collapse(rng, c2)),
+        9 => (gen_bh_edges(rng, 64), gen_bh_edges(rng, c2)),
         10 => (gen_bh(rng, 64, false), gen_bh_just_over(rng, c2)),
         11 => (gen_bh_just_over(rng, 64), gen_bh(rng, c2, false)),
         2 => (gen_bh(rng, 64, true), gen_bh(rng, c2, false)),
